@@ -185,6 +185,10 @@ tool_run(const char *kind, const char *class, const char *fine, double ord, cons
 	if (r.exited && r.status) {
 		++*c_fail;
 	}
+	if (r.err && strstr(r.err, "C10SKIP widened")) {
+		EX_CTR(c_skipw, "skipped:runs with a compiler-widened load of a packed struct overlapping a stack red zone (gcc artifact, not a defect)");
+		++*c_skipw;
+	}
 	rep = r.err ? strstr(r.err, "C10REPORT ") : NULL;
 	if (rep) {
 		char line[200];
